@@ -49,12 +49,12 @@ PlanOK(x, p) ==
 
 (* ------------------------------- C16 ------------------------------------ *)
 Units == {"absent", "seconds", "minutes", "hours", "int"}
-UnitInts == {1, 2, 60, 90, 3600}
+UnitInts == {1, 2, 7, 60, 75, 90, 300, 600, 3600}
 Mult(u, ui) == CASE u = "minutes" -> 60 [] u = "hours" -> 3600 [] u = "int" -> ui [] OTHER -> 1
 (* raw values are whole multiples: start/duration given as (steps x mult),  *)
 (* rates as per-second values                                               *)
 ConfigInputs == {[unit |-> u, ui |-> ui, start |-> s, dur |-> d, rate |-> r, flops |-> f, bw |-> b, hotrate |-> h, coldrate |-> c] :
-                   u \in Units, ui \in UnitInts, s \in {0, 3}, d \in {1, 5}, r \in {1, 4}, f \in {2, 7}, b \in {1, 3},
+                   u \in Units, ui \in UnitInts, s \in {0, 3, 7}, d \in {1, 5, 7, 15, 29}, r \in {1, 4}, f \in {2, 7}, b \in {1, 3},
                    h \in {5}, c \in {2}}
 ConfigOK(x, y) ==
     LET m == Mult(x.unit, x.ui)
